@@ -816,6 +816,20 @@ fn main() {
             }
         }
     }
+    // ---- large-magnitude integers: every element and the plain sum fit the element type (i32), the sum of SQUARES
+    // does not — the library accumulates moments in f64, so nothing may overflow; an accumulation moved into the element
+    // type (a "save a cast per element" refactoring) is visible only here
+    {
+        let big: [Option<i64>; 6] = [Some(46341), Some(50000), Some(-70000), Some(1000003), Some(65536), None];
+        for len in 1..=(if thorough { 4 } else { 3 }) {
+            for k in enumerate(&big, len) {
+                if len == 3 && !rng.chance(1, 3) { continue; }
+                if len == 4 && !rng.chance(1, 12) { continue; }
+                let s = Series { k, den: 1, tags: "style=big_int nulls=enum".into() };
+                single_series(&mut em, &mut rng, &s, false);
+            }
+        }
+    }
     // ---- single series: structured random ------------------------------------------------------
     let nrand = if thorough { 2000 } else { 300 };
     let mut randoms: Vec<Series> = vec![];
